@@ -18,24 +18,24 @@ CLAIMED = {
             "; compiled-contractor invalidation after every hand-written change of order-sensitive recipes"),
     "C03": ("4 C03", "def-use provenance of flops/size getters, must-dependence of extensive totals on the slice multiplicity, "
             "executed-equals-reported clauses (contractor memo key, sliced-leaf invalidation)"
-            "; symbolic evaluation (monomials in the index dimensions) of remove_ind's in-place deltas; integer-arithmetic discipline of stored figures"),
+            "; symbolic evaluation (monomials in the index dimensions) of remove_ind's in-place deltas; integer-arithmetic discipline of stored figures; option-forwarding along the delegate chains of the tree (the requested traversal order reaches every delegate: keyword, position, dict, forwarded **kwargs)"),
     "C04": ("4 C04", "attribute-completeness and aliasing analysis of set_state_from/copy, who-may-write and "
             "sign-symmetry of running totals, CFG dominance of contract_stats before deltas"
-            "; symbolic evaluation of remove_ind's in-place deltas and of the annealing move evaluator (case analysis left/right/both); guard agreement of reset, refill and flag of each recomputed total"),
+            "; symbolic evaluation of remove_ind's in-place deltas and of the annealing move evaluator (case analysis left/right/both); guard agreement of reset, refill and flag of each recomputed total; def-use purity of the left/right orientation test (node sets only); ad-hoc per-node cache keys"),
     "C05": ("4 C05", "pairing/typestate of the path simulator's single-use ids (every recorded step pops its ids and adds one "
             "node; who-may-write the id counter and node table), CFG must-pass-through of optimize_remaining_by_size "
             "before every hand-out of a path, path-sensitive guard of flops-limited runs, completion branches of the "
             "tree builders on every path, guard of the one-community partition result"
-            "; coverage of the leftover heap; dominance of every builder return by its completing loop"),
+            "; coverage of the leftover heap; dominance of every builder return by its completing loop; copy-completeness of the path simulator (each slot from the same slot of the source); guard analysis of constant subscripts on the caller's explicit path; positive-floor analysis of logarithm arguments fed by a zero-initialised counter; typestate of the set of nodes still to divide incl. its initial state; sibling progress-escape of partition-driven loops; CFG must-pass-through of a keyed store between an empty tally and the pick"),
     "C06": ("4 C06", "write-discipline of the sliced-index table (sorted rebuild only, SliceInfo field order) and pairing "
             "of sliced_inputs updates, chunk-key/slice-number agreement, exponent-aware combination sites"
-            "; partial evaluation of every enumeration of slice numbers; recurrence of the strides and digit/remainder order of the mixed-radix decoding; storage ownership of yielded chunks"),
+            "; partial evaluation of every enumeration of slice numbers; recurrence of the strides and digit/remainder order of the mixed-radix decoding; storage ownership of yielded chunks; may-alias analysis of in-place writes in the adder and the gatherer (parameters, unpackings, elements, iteration)"),
     "C07": ("4 C07", "CFG guard dominance of the forbidden-index test, structural form of the target filter, sibling "
             "agreement of the three target encodings"
-            "; symbolic evaluation of the cost model's arithmetic (initial totals, per-index reductions, removal deltas, stored entry, figures) against the tree's definitions; copy completeness of the model; decision table of the allow_outer modes; flag/target agreement of every target test"),
+            "; symbolic evaluation of the cost model's arithmetic (initial totals, per-index reductions, removal deltas, stored entry, figures) against the tree's definitions; copy completeness of the model; decision table of the allow_outer modes; flag/target agreement of every target test; ownership (who-may-write) of the cost model's slots over the whole package, with a built-in positive example"),
     "C08": ("4 C08", "post-dominance of stats refresh after in-place post-processing, sibling cross-check of objectives' "
             "recorded keys, guarded best update and once-per-trial bookkeeping on the CFG"
-            "; effect analysis of the shared trial-function wrappers and objectives (no per-trial state)"),
+            "; effect analysis of the shared trial-function wrappers and objectives (no per-trial state); boolean path analysis of the report filter (satisfiability of each path condition under 'score is +inf', atoms enumerated); def-use trace of the assessment loop's iterable through pass-through wrappers only"),
     "C09": ("4 C09", "abstract interpretation of the six sibling step-cost functions into cost signatures compared with "
             "the objectives' definitions and with the name dispatch; CFG/guard analysis of the DP (memo overwrite "
             "guard and tuple layout, sieve skip, early exits, outer-product flag); partial evaluation of the "
@@ -53,10 +53,10 @@ CLAIMED = {
             "the fresh-symbol choice, partial evaluation of the ellipsis slice and of the interleaved index expressions, "
             "sibling agreement of the implicit-output implementations, guard/direction of the single-operand fast paths, "
             "def-use check that every label-carrying argument passes the one renaming map"
-            "; form-independent partial evaluation of the interleaved form (loop or strided slices); routine used for implicit outputs of the label interface"),
+            "; form-independent partial evaluation of the interleaved form (loop or strided slices); routine used for implicit outputs of the label interface; CFG must-pass-through of a blank-stripping re-binding between the caller's subscripts string and its splitter; completeness of the ellipsis symbol list before operands are replaced"),
     "C13": ("4 C13", "cache-key completeness/injectivity by def-use dependence, sibling TypeError fallback, purity and "
             "result-immutability of lru_cached parsers, array-taint of cached callables"
-            "; computed layering of memo functions below cache tables and joint invalidation"),
+            "; computed layering of memo functions below cache tables and joint invalidation; memo-key carrier analysis of the per-tree contractor memo (shared with C02)"),
     "C14": ("4 C14", "fingerprint determinism/coverage by dependence analysis, cache policy as CFG path properties, "
             "writer/reader record-schema agreement"
             "; overwriting publish of the durable store; sibling agreement of wrapper and sub-optimizer constructors on the effective objective"),
@@ -73,7 +73,7 @@ CLAIMED = {
             "; symbolic case analysis (index on left / right / both) of the annealing move evaluator against the survival rule"),
     "C19": ("4 C19", "every per-slice combination site uses the exponent-aware adder; normalise/accumulate pairing; "
             "rescale-before-stack dominance and form; scale measure and zero sentinel; option reaches every expression branch"
-            "; guard of the zero early-out; may-alias taint of in-place writes in the executor"),
+            "; guard of the zero early-out; may-alias taint of in-place writes in the executor; sibling agreement in kind (array vs bare number) of the executor's stripped returns against the stacking consumer"),
     "C20": ("4 C20", "taint of the bond cap chi (reaches sizes only through min()/comparison); sibling cross-checks of "
             "compress vs its cost estimate, hypergraph vs tree survival rule, exact vs compressed size range; "
             "ownership (freshness) of the simulator's size table; unary-step handling of path consumers"
@@ -85,21 +85,21 @@ LEVEL_TEXT = {
     "C02": "for every function that can restructure or slice a tree (all sites, hence all histories through them) the cached per-node recipes are invalidated as the computed dependency graph requires; value equality itself is numerical and not decided",
     "C03": "the definitions of flops/size and the slice multiplicity of every reported total are read off the getters by def-use dependence (must-dependence on every path); the arithmetic on runtime sizes is not decided; slicing rescales per-step and total figures by the definitional factors",
     "C04": "every attribute of a tree is copied safely, running totals are adjusted symmetrically by their owners only, and no slice-dependent figure is first computed after the sliced set changed — for all sites; integer arithmetic is not decided; the in-place deltas of slicing are the definitional differences",
-    "C05": "protocol facts only: ids of the path simulator are single-use and consumed by removal, every finder built on it joins leftover parts before handing a path out and never hands out a flops-limited run, from_path and the partition builders join what is left on every path; which contraction is found and that partitioners label every node is NOT decided",
+    "C05": "protocol facts only: ids of the path simulator are single-use and consumed by removal, every finder built on it joins leftover parts before handing a path out and never hands out a flops-limited run, from_path and the partition builders join what is left on every path; the corner cases the property names (one tensor, scalars, networks without shared indices) are carried by structural clauses: empty explicit path accepted, zero operation counts floored before a logarithm, a single-leaf root never queued for division, every partition-driven loop escapes when nothing happened, tallies and extremes that may range over nothing are guarded (one known finding: the hyper-optimizer's objectives on a one-tensor network); which contraction is found and that partitioners label every node is NOT decided",
     "C06": "every writer of the sliced-index table keeps output indices first and the slice count is multiplied/divided by the recorded size; stride arithmetic is runtime and not decided",
     "C07": "forbidden indices are excluded on every path, whatever search() returns passes the unscaled target filter, the cost model slices only indices it knows against its own baseline; equality of predicted and real costs is not decided; the cost model's own arithmetic equals the tree's cost definitions for one abstract contraction (symbolically)",
-    "C08": "the returned trial is the arg-min of the recorded scores on every schedule (each reported trial is compared, guarded update, once-per-trial bookkeeping) and recorded costs are refreshed after every in-place post-processing; cost values are not decided",
+    "C08": "the returned trial is the arg-min of the recorded scores on every schedule (each reported trial is compared, guarded update, once-per-trial bookkeeping) and recorded costs are refreshed after every in-place post-processing, a failed trial never reaches the sampling library, every drawn trial reaches the comparison; cost values are not decided",
     "C09": "necessary conditions of optimality only: each objective name is minimised with a step cost whose derived signature equals the objective's definition, the per-subgraph memo keeps the better entry, the sieve skips only on the new score against a cap that grows every round, every bipartition size is enumerated, search_outer is honoured; that the result is the global minimum is NOT decided",
     "C10": "conventions only: every emitted path is produced children-first, every implementation of the recycled-id format removes operands in descending order and appends the result, every single-assignment id counter starts at the number of inputs and advances once per emitted step on every path; equality of round trips is NOT decided",
     "C11": "layout agreement only: prepared operands, reshape groups and produced output order satisfy (B,M,K)x(B,K,N)->(B,M,N) for every equation, every transposition tuple has the right direction, planner and executor of single-operand einsum agree on stage order, tensordot accepts integer and negative axes; numerical equality with the reference is NOT decided",
-    "C12": "conventions only: fresh ellipsis symbols exclude every used symbol, ellipsis dimensions are right-aligned per operand and first in implicit outputs, implicit outputs are sorted singles (or first-appearance order for labels), the interleaved form pairs operand 2i with sublist 2i+1, single-operand fast paths are guarded and transpose in the right direction, one renaming map, ncon outputs ordered -1, -2, ...; conformance with numpy.einsum is NOT decided",
+    "C12": "conventions only: fresh ellipsis symbols exclude every used symbol, ellipsis dimensions are right-aligned per operand and first in implicit outputs, implicit outputs are sorted singles (or first-appearance order for labels), the interleaved form pairs operand 2i with sublist 2i+1, single-operand fast paths are guarded and transpose in the right direction, one renaming map, ncon outputs ordered -1, -2, ..., blanks dropped before the subscripts string is split; conformance with numpy.einsum is NOT decided",
     "C13": "cache keys are complete and injective, memoised functions pure, cached callables stateless — for every cache site and call site in the package; numeric equality of cached and uncached results is not decided",
     "C14": "fingerprints are deterministic, covering and position-preserving, and the lookup/run/overwrite policy holds on every CFG path of the reusable optimizer; that a rebuilt tree equals the searched one is not decided",
     "C15": "no kill point can leave a partial file under an entry name because every durable write is temp-sibling + close + atomic replace, and a corrupt entry reads as absent; filesystem behaviour is assumed (POSIX rename)",
     "C16": "per-query state of shared optimizers is keyed by thread or by contraction on every write/read, no result-carrying optimizer is reused, and 'searched' is only reported by the searching thread — the interleaving quantifier is discharged structurally (atomic dict ops assumed)",
     "C17": "the seed reaches every random-consuming callee of every seeded context over the resolved call graph, no global generator is used, named preset sub-optimizers of seeded operations consume no randomness, no label set is iterated into an order-sensitive consumer; third-party partitioners are trusted given their seed",
     "C18": "all simulators use the same survival predicate, appearance table and count bookkeeping (sibling cross-check) and a reported cost covers every contraction step; numerical equality step by step is not decided",
-    "C19": "every combination of per-slice results is exponent-aware, the scale divided out is the largest magnitude and accumulated additively in log space with a bounded rescale, a zero result carries the neutral exponent; floating-point range claims themselves are not decided",
+    "C19": "every combination of per-slice results is exponent-aware, the scale divided out is the largest magnitude and accumulated additively in log space with a bounded rescale, a zero result carries the neutral exponent, stripped returns agree in kind with what the stacking consumer needs (one known finding: the scalar check_zero exit); floating-point range claims themselves are not decided",
     "C20": "the bond cap reaches sizes only through min()/comparison, the compress-cost estimate charges exactly when compress truncates, the simulator owns its size table and keeps the tree's survival rule, exact and compressed size figures range over the same tensors, path consumers accept unary steps; tracker arithmetic is not decided",
 }
 
